@@ -48,7 +48,8 @@ def run(F, chk):
     chk.not_decided = "that the counts actually return to baseline over a history; timer behaviour; eviction policy"
     # ---------------- R-C16-a ------------------------------------------------
     ra = chk.rule("R-C16-a", "T3+T4", "admission only after a successful limit check", floor=3)
-    cs = F.body(SERVER + "::create_sessions")
+    # the admission block may live in a private helper of create_sessions (`fn admit_or_make_room(&mut self) -> bool`)
+    cs = lib.flat(F, F.body(SERVER + "::create_sessions"), keep=(SM + "::incr", SM + "::check_limits"))
     ra.fn(cs.path)
     incr_sites = [bi for bi, t in cs.calls() if callee_of(t) == SM + "::incr"]
     pops = [bi for bi, t in cs.calls() if callee_of(t).endswith("VecDeque::<T, A>::pop_back")]
@@ -66,7 +67,7 @@ def run(F, chk):
             ra.violation(key, cs.where(incr_sites[0]), "SessionManager::incr is reachable from the accept loop without any check_limits() having returned true")
         else:
             ra.ok(key, cs.where(incr_sites[0]), "every path from pop_back to incr takes a check_limits()==true edge %s" % ok_edges)
-    callers = {b.path for b, bi, t in F.call_sites(SM + "::incr")}
+    callers = {lib.owner_of(F, b, stop_at=(cs.path,)).path for b, bi, t in F.call_sites(SM + "::incr")}
     if callers == {cs.path}:
         ra.ok("SessionManager::incr callers", "", "only create_sessions", nontrivial=False)
     else:
